@@ -285,8 +285,12 @@ def r_ordered(prog, tier):
                 if ctx is not None:
                     okx, whyx = ctx[0], ctx[1].replace('stored child list', 'token list in storage order').replace(
                         'stored child order', 'storage order')
-                    if okx is False and not (isinstance(par, ast.Subscript) or 'indexing' in whyx):
+                    positional = isinstance(par, ast.Subscript) or 'indexing' in whyx or (
+                        isinstance(par, ast.Call) and isinstance(par.func, ast.Name) and par.func.id == 'enumerate')
+                    if okx is False and not positional:
                         okx = None          # loops and calls: whether the order shows is not decided here
+                    elif okx is False and isinstance(par, ast.Call):
+                        whyx = 'enumerate() numbers the tokens in storage order: the numbers are not positions in the sentence'
                     obs.append(Ob('R-ORDERED/RAW', f.fq, 'the storage order of the tokens is not observed: `%s`'
                                   % unparse(par if par is not None else n)[:80], okx, whyx,
                                   construct='unordered:' + unparse(par if par is not None else n)[:80], line=n.lineno))
@@ -603,6 +607,14 @@ def r_levels(prog, tier):
                                   'not the longest' % (lv, bad[0])
         elif good:
             verdict, why = True, '`%s` is aggregated with max() or a guarded update' % lv
+            # ... starting afresh for every node: the initial value is set inside the loop over the nodes
+            rec = [n for n in stores if isinstance(n.ast, ast.Assign) and isinstance(n.ast.value, ast.Name) and n.ast.value.id == lv]
+            inits = [nid for (nid, v) in name_defs(f, lv) if isinstance(v, ast.Constant)]
+            if rec and rec[0].loops and inits and all(rec[0].loops[0] not in cfg.nodes[nid].loops for nid in inits):
+                verdict = False
+                why = '`%s` is set to its initial value once, before the loop over the nodes (line %d), and only ever raised ' \
+                      'inside it: a node gets the largest level of all nodes visited before it, not its own' % (
+                          lv, cfg.nodes[inits[0]].lineno)
     obs.append(Ob('R-LEVELS', f.fq, 'the level of a node is the maximum over its downward paths', verdict, why,
                   construct='lvl-max', line=f.node.lineno))
     return obs, {}
